@@ -3,7 +3,11 @@ package c20
 import (
 	"bytes"
 	"context"
+	"crypto/sha1"
+	"crypto/sha256"
 	"fmt"
+	"hash"
+	"sort"
 	"strings"
 	"testing"
 
@@ -72,4 +76,84 @@ func TestUnsupportedRefsRefusedWhereOnlySupportedOnesAreAllowed(t *testing.T) {
 			evid.R.Sample(true, map[string]any{"kind": "unsupported-ref-at-entry-points", "ref": s, "bytes": len(data)})
 		}
 	})
+}
+
+// TestOrderConsumersAgreeWithTextOrder: the merge-join the sync tools run over two enumerations
+// (blobserver.ListMissingDestinationBlobs) relies on the order of refs being the byte-wise order of their
+// text forms, across hash functions. For generated ref sets (sha1, sha224, sha256 mixed), fed in text
+// order as every enumeration delivers them, it must report exactly source minus destination, in order.
+func TestOrderConsumersAgreeWithTextOrder(t *testing.T) {
+	evid.Check(t, 300, 3000, func(t *rapid.T) {
+		n := rapid.IntRange(1, 40).Draw(t, "refs")
+		var all []blob.Ref
+		seen := map[blob.Ref]bool{}
+		for i := 0; i < n; i++ {
+			data := []byte(fmt.Sprintf("ordered-%d-%d", i, rapid.IntRange(0, 1<<20).Draw(t, "salt")))
+			var r blob.Ref
+			switch rapid.IntRange(0, 2).Draw(t, "hash") {
+			case 0:
+				r = blob.RefFromHash(hashOf("sha1", data))
+			case 1:
+				r = blob.RefFromHash(hashOf("sha224", data))
+			default:
+				r = blob.RefFromHash(hashOf("sha256", data))
+			}
+			if !seen[r] {
+				seen[r] = true
+				all = append(all, r)
+			}
+		}
+		sort.Slice(all, func(i, j int) bool { return all[i].String() < all[j].String() })
+		var src, dst, want []blob.Ref
+		for _, r := range all {
+			switch rapid.IntRange(0, 2).Draw(t, "where") {
+			case 0:
+				src, want = append(src, r), append(want, r)
+			case 1:
+				dst = append(dst, r)
+			default:
+				src, dst = append(src, r), append(dst, r)
+			}
+		}
+		feed := func(l []blob.Ref) <-chan blob.SizedRef {
+			ch := make(chan blob.SizedRef, len(l))
+			for _, r := range l {
+				ch <- blob.SizedRef{Ref: r, Size: 1}
+			}
+			close(ch)
+			return ch
+		}
+		out := make(chan blob.SizedRef, len(all)+1)
+		blobserver.ListMissingDestinationBlobs(out, func(blob.Ref) {}, feed(src), feed(dst))
+		var got []blob.Ref
+		for sb := range out {
+			got = append(got, sb.Ref)
+		}
+		evid.R.Eval()
+		mixed := map[string]bool{}
+		for _, r := range all {
+			mixed[r.HashName()] = true
+		}
+		if len(mixed) >= 2 && len(src) > 0 && len(dst) > 0 {
+			evid.R.NonTrivial(evid.Hash("merge", fmt.Sprint(src), fmt.Sprint(dst)))
+			evid.R.Label("order/merge-join-over-mixed-hash-enumerations")
+		}
+		if fmt.Sprint(got) != fmt.Sprint(want) {
+			t.Fatalf("C20 violated: ListMissingDestinationBlobs over two enumerations in text order reports %v as missing at the destination; source minus destination is %v\nsource:      %v\ndestination: %v", got, want, src, dst)
+		}
+	})
+}
+
+func hashOf(name string, data []byte) hash.Hash {
+	var h hash.Hash
+	switch name {
+	case "sha1":
+		h = sha1.New()
+	case "sha224":
+		h = sha256.New224()
+	default:
+		h = sha256.New()
+	}
+	h.Write(data)
+	return h
 }
